@@ -9,7 +9,7 @@ from . import c12 as C12
 
 ID = 'C03'
 TITLE = 'alignment puts all timeseries on the prescribed common index, values intact'
-LEAN_FILES = ['Basic', 'TSBasic', 'Fill', 'FillDriver', 'Align', 'AlignDriver', 'FillLemmas', 'FillIndep', 'AlignLemmas', 'AlignAsOf', 'AlignTree', 'C03']
+LEAN_FILES = ['Basic', 'TSBasic', 'Fill', 'FillDriver', 'Align', 'AlignDriver', 'FillLemmas', 'FillIndep', 'FillRows', 'AlignLemmas', 'AlignAsOf', 'AlignTree', 'AlignLimit', 'AlignFill', 'C12', 'C03']
 RULE = ('distinct protocol lines (container, join policy, fill method, column policy) on which the implementation returned a value '
         'and the container holds at least two timeseries / arrays with different indices / lengths')
 TRUSTED = ['correspondence harness (pv.engine, pv.proto, pv.props._w5ts) and generators of pv.props.c03',
